@@ -17,6 +17,7 @@ static size_t g_used; // bytes handed out so far (page multiple)
 static std::vector<Buf> g_bufs;
 static const uint8_t CANARY = 0xC7;
 
+unsigned g_poison_mask = 0x100;
 thread_local sigjmp_buf tl_jb;
 thread_local volatile int tl_armed;
 thread_local Fault tl_fault;
@@ -56,6 +57,19 @@ void init() {
 	if (p == MAP_FAILED) { perror("guard arena mmap"); _exit(5); }
 	g_base = (uint8_t *) p;
 	g_used = 0;
+	{
+		// which register files may be touched on this host (OS-enabled state)
+		unsigned a, b, c, d, m = 0;
+		__asm__ volatile("cpuid" : "=a"(a), "=b"(b), "=c"(c), "=d"(d) : "a"(1), "c"(0));
+		if ((c & (1u << 27)) && (c & (1u << 28))) {
+			unsigned lo, hi;
+			__asm__ volatile("xgetbv" : "=a"(lo), "=d"(hi) : "c"(0));
+			if ((lo & 6) == 6) m |= 1;
+			__asm__ volatile("cpuid" : "=a"(a), "=b"(b), "=c"(c), "=d"(d) : "a"(7), "c"(0));
+			if ((m & 1) && (b & (1u << 16)) && (lo & 0xE0) == 0xE0) m |= 2;
+		}
+		g_poison_mask = getenv("VERIF_NO_POISON") ? 0x100 : m;
+	}
 	thread_init();
 	struct sigaction sa;
 	memset(&sa, 0, sizeof sa);
